@@ -125,7 +125,7 @@ mod verif_c11_recver {
             Err(e) => {
                 assert!(end > m0, "C11.recver.recv.err_only_beyond_stream_limit");
                 assert!(e.kind() == ErrorKind::FlowControl, "C11.recver.recv.beyond_stream_limit_is_flow_control_error");
-                assert!(e.frame_type() == f.frame_type().into(), "C11.recver.recv.error_names_frame_type");
+                assert!(e.frame_type() == qbase::error::ErrorFrameType::from(f.frame_type()), "C11.recver.recv.error_names_frame_type");
                 assert!(r.rcvbuf.largest_offset() == bl0 && r.largest == l0, "C11.recver.recv.refused_data_not_buffered");
             }
             Ok(fresh) => {
@@ -178,7 +178,7 @@ mod verif_c11_recver {
                     assert!(fin && end < bl0, "C12.recver.recv_data.err_only_for_limit_or_final_size");
                     assert!(e.kind() == ErrorKind::FinalSize, "C12.recver.determin_size.final_below_received_is_final_size_error");
                 }
-                assert!(e.frame_type() == f.frame_type().into(), "C12.recver.recv_data.error_names_frame_type");
+                assert!(e.frame_type() == qbase::error::ErrorFrameType::from(f.frame_type()), "C12.recver.recv_data.error_names_frame_type");
             }
             Ok((into_rcvd, fresh)) => {
                 assert!(end <= m0, "C11.recver.recv_data.accepts_only_within_stream_limit");
@@ -255,7 +255,7 @@ mod verif_c11_recver {
         match res {
             Err(e) => {
                 assert!(e.kind() == ErrorKind::FinalSize, "C12.recver.size_known.recv.contradiction_is_final_size_error");
-                assert!(e.frame_type() == f.frame_type().into(), "C12.recver.size_known.recv.error_names_frame_type");
+                assert!(e.frame_type() == qbase::error::ErrorFrameType::from(f.frame_type()), "C12.recver.size_known.recv.error_names_frame_type");
                 assert!(s.rcvbuf.largest_offset() == bl0, "C12.recver.size_known.recv.refused_data_not_buffered");
             }
             Ok(fresh) => {
@@ -293,7 +293,7 @@ mod verif_c11_recver {
         match res {
             Err(e) => {
                 assert!(e.kind() == ErrorKind::FinalSize, "C12.recver.recv_reset.final_below_received_is_final_size_error");
-                assert!(e.frame_type() == FrameType::ResetStream.into(), "C12.recver.recv_reset.error_names_frame_type");
+                assert!(e.frame_type() == qbase::error::ErrorFrameType::from(FrameType::ResetStream), "C12.recver.recv_reset.error_names_frame_type");
             }
             Ok(credit) => {
                 // the not yet charged part of the final size is what is reported for the connection window
